@@ -5,6 +5,7 @@ import random
 import tempfile
 
 import fstree
+import optionscheck
 import tlc
 
 NAMES = ['x.py', 'x.pyc', 'x.pyo', 'y.pyc', 'z.pyo', 'x.pyc.bak', 'pyc', 'X.PYC', '.pyc',
@@ -83,10 +84,15 @@ def run(chk, tier, seed, replay=None):
                         'directories are don\'t-care for completeness (the safety clauses still apply)',
                         'a symlinked directory (target outside the tree) counts as a directory with the target\'s content']
     rng = random.Random(seed * 7919 + 15)
+    if replay and optionscheck.is_replay(replay):
+        optionscheck.replay(chk, replay, ['C15:'])
+        return
     if replay:
         with open(replay) as f:
             cases = [json.load(f)['case']]
     else:
+        # --usecompiled / -k on their way through get_options (Options.tla, Trace_Options)
+        optionscheck.run(chk, tier, seed, ['C15:'], mc=False)
         chk.add_tlc('DiscoveryMC', tlc.run('DiscoveryMC', 'DiscoveryMC', timeout=1800))
         n = 300 if tier == 'quick' else 6000
         cases = []
